@@ -52,8 +52,8 @@ impl<'a> VariablesInAllowedPosition<'a> {
             for (var_name, var_type) in usages {
                 if let Some(var_def) = var_defs.iter().find(|var_def| var_def.name == *var_name) {
                     let expected_type = match (&var_def.default_value, &var_def.var_type) {
-                        (Some(_), Type::ListType(inner)) => Type::NonNullType(inner.clone()),
-                        (Some(default_value), Type::NamedType(_)) => {
+                        (Some(default_value), Type::ListType(_))
+                        | (Some(default_value), Type::NamedType(_)) => {
                             if let Value::Null = default_value {
                                 var_def.var_type.clone()
                             } else {
